@@ -329,7 +329,7 @@ PROPS = {
     'C06': {
         'steps': [{'script': 'corr_graph.py', 'timeout': 1500, 'timeout_thorough': 6000},
                   {'script': 'oracle_c06.py', 'timeout': 1500, 'timeout_thorough': 6000}],
-        'required_theorems': ['C06_interleaved_graph_preserves_meaning', 'C06_interleaving_check_is_sound', 'C06_dequantize_insertion_preserves_meaning',
+        'required_theorems': ['C06_float_compute_run_preserves_meaning', 'C06_float_compute_run_is_an_interleaving', 'C06_plan_check_is_sound', 'C06_interleaved_graph_preserves_meaning', 'C06_interleaving_check_is_sound', 'C06_dequantize_insertion_preserves_meaning',
                               'C06_performer_dequantize_preserves_meaning',
                               'C06_weight_only_plans_dequantize', 'C06_dynamic_range_partial'],
         'rule': GRAPH_RULE + ('; C06 runtime oracle: generated models biased to weight ops x float-compute recipes '
